@@ -168,6 +168,8 @@ func (tg *TCPGroup) worker() {
 			tg.acceptCh <- c
 		})
 		if err != nil {
+			// the group is closed: nobody will take this connection
+			_ = c.Close()
 			return
 		}
 	}
